@@ -70,27 +70,29 @@ Record Defects := {
   d_singleton_mem : bool;       (* registered InterchainManager object: ServiceCache field set by InitServiceCache, nil after restart *)
   d_stale_persister : bool;     (* registered manager objects keep the Persister of the previous call: promoted core methods fail differently on a fresh process *)
   d_forgets_persister : bool;   (* mutation class: an exported manager method that does not re-bind the embedded core manager's Persister before using it (none in the pinned tree) *)
+  d_proofs_prestage : bool;     (* mutation class: verifyProofs run by the pre-execute goroutine, i.e. possibly before the previous block's state changes are applied (in the pinned tree it runs in processExecuteEvent) *)
   d_dst_key_first : bool        (* interchain.go addToMultiTxNotifyMap: dst-notified ids filed under the chain of ibtpIDs[0] (C05; deterministic once sorted) *)
 }.
 (** the C01 theorem holds whatever [d_dst_key_first] is *)
-Definition cfg_fixed_with (k : bool) : Defects := Build_Defects false false false false false false false false k.
+Definition cfg_fixed_with (k : bool) : Defects := Build_Defects false false false false false false false false false k.
 Definition cfg_fixed : Defects := cfg_fixed_with false.
-Definition cfg_faithful : Defects := Build_Defects true true true true true true true false true.
+Definition cfg_faithful : Defects := Build_Defects true true true true true true true false false true.
 Definition c01_clean (c : Defects) : Prop :=
   d_notify_unsorted c = false /\ d_timeout_child_order c = false /\ d_first_error_order c = false /\
   d_bns_after_flush c = false /\ d_cache_failed_events c = false /\ d_singleton_mem c = false /\
-  d_stale_persister c = false /\ d_forgets_persister c = false.
+  d_stale_persister c = false /\ d_forgets_persister c = false /\ d_proofs_prestage c = false.
 
 (* ------------------------------------------------------------------------------------- *)
 (** * Oracles *)
 Record oracle := {
   o_perm : N -> N -> N -> list N -> list N;   (* site, block height, call index, the map's keys *)
   o_sched : N -> list N -> list N;            (* height, invalid tx indices -> goroutine completion order *)
-  o_clock : N -> N -> N                       (* height, ordinal of the read *)
+  o_clock : N -> N -> N;                      (* height, ordinal of the read *)
+  o_ahead : N -> bool                         (* height: did the pre-execute stage handle this block before the previous block was executed (blocks delivered back to back)? *)
 }.
 Definition oracle_ok (o : oracle) : Prop :=
   (forall s h i l, Permutation (o_perm o s h i l) l) /\ (forall h l, Permutation (o_sched o h l) l).
-Definition o_id : oracle := Build_oracle (fun _ _ _ l => l) (fun _ l => l) (fun _ _ => 0).
+Definition o_id : oracle := Build_oracle (fun _ _ _ l => l) (fun _ l => l) (fun _ _ => 0) (fun _ => false).
 
 (** site numbers (the classification table at the end ties them to the generated inventory) *)
 Definition S_BM0 : N := 1.    (* BeginMultiTXs, failing-child loop: notify lists + set all *)
@@ -126,7 +128,7 @@ Definition tok_eqb (a b : tok) : bool :=
   | _, _ => false
   end.
 
-Record svcrec := { sv_avail : bool; sv_ordered : bool }.
+Record svcrec := { sv_avail : bool; sv_ordered : bool; sv_black : list N (* Permission: source services NOT allowed to call *) }.
 
 Inductive val :=
 | VSvc (r : svcrec)
@@ -209,6 +211,7 @@ Inductive tx :=
 | TMgrCall (c : N) (forgets ok : bool)                 (* exported *Response method of manager contract c (0 appchain, 1 service, 2 rule, 3 node, 4 role, 5 dapp); [forgets]: it does not re-bind the Persister first; ok: its status when it runs (input) *)
 | TPromoted                                           (* a method promoted from the embedded core ServiceManager (no *Response result) called as a transaction *)
 | TIbtp (valid : bool) (b : ibtp)                     (* valid = signature and proof verified *)
+| TIbtpP (vnow vprev : bool) (b : ibtp)               (* an IBTP whose proof verdict depends on the previous block: vnow against the state the block starts from, vprev against the state one block earlier *)
 | TInitCache                                          (* BVM InitServiceCache on the registered object *)
 | THandleData (b : ibtp).                             (* BVM HandleIBTPData(bytes), no proof *)
 
@@ -452,7 +455,7 @@ Section Exec.
             else
               let '(isBatch, tfail) :=
                 match svc_lookup cache w dst with
-                | Some rd_ => if sv_avail rd_ then (negb (sv_ordered rd_), false) else (false, true)
+                | Some rd_ => if sv_avail rd_ then (if mem_N src (sv_black rd_) then (false, true) else (negb (sv_ordered rd_), false)) else (false, true)
                 | None => (false, true)
                 end in
               if isBatch then inl (true, tfail)
@@ -523,6 +526,12 @@ Section Exec.
   Definition cache_store (c : smap svcrec) (evs : list (N * svcrec)) : smap svcrec :=
     fold_left (fun c e => sset (fst e) (snd e) c) evs c.
 
+  Definition do_ibtp (i : N) (v : view) (valid : bool) (b : ibtp) : view * receipt :=
+    if valid then
+      let '(w', r, rec) := handle_ibtp i (v_cache v) (v_w v) b h in
+      (Build_view w' (v_cache v) (v_single v) (pset_if (ibtp_touch (v_cache v) b rec) 1 (v_persist v)), r)
+    else (v, failed (RErr 1)).
+
   Definition exec_tx (i : N) (invalid : bool) (v : view) (t : tx) : view * receipt :=
     if invalid then (v, failed (RErr 1))
     else
@@ -548,11 +557,8 @@ Section Exec.
             (v, if mem_N c (v_persist v) then Build_receipt ok false (if ok then RNone else RErr 9) None [] else failed RNilPtr)
           else
             (Build_view (v_w v) (v_cache v) (v_single v) (pset c (v_persist v)), Build_receipt ok false (if ok then RNone else RErr 9) None [])
-      | TIbtp valid b =>
-          if valid then
-            let '(w', r, rec) := handle_ibtp i (v_cache v) (v_w v) b h in
-            (Build_view w' (v_cache v) (v_single v) (pset_if (ibtp_touch (v_cache v) b rec) 1 (v_persist v)), r)
-          else (v, failed (RErr 1))
+      | TIbtp valid b => do_ibtp i v valid b
+      | TIbtpP vnow vprev b => do_ibtp i v (if d_proofs_prestage cfg && o_ahead o h then vprev else vnow) b
       | TInitCache =>
           (* no *Response result: the reflective call panics after the method ran (before b7f5ec6f) *)
           (Build_view (v_w v) (v_cache v) (if d_singleton_mem cfg then true else v_single v) (v_persist v), failed (RErr 9))
@@ -598,7 +604,7 @@ Section Exec.
     fold_left (fun acc tr =>
                  let '(adds, rems) := acc in
                  match tr with
-                 | (TIbtp true b, r) =>
+                 | (TIbtp true b, r) | (TIbtpP _ _ b, r) =>
                      if negb (rc_ok r) || match rc_ret r with RBatch => true | _ => false end || rc_begin_failure r then acc
                      else if ib_typ b =? 0 then
                        match ib_group b with
@@ -847,7 +853,7 @@ Fixpoint nth_perm (fuel : nat) (n : N) (l : list N) : list N :=
       end
   end.
 Definition cand_oracle (n : N) : oracle :=
-  Build_oracle (fun _ _ _ l => nth_perm (List.length l) n (isort l)) (fun _ l => l) (fun _ _ => 0).
+  Build_oracle (fun _ _ _ l => nth_perm (List.length l) n (isort l)) (fun _ l => l) (fun _ _ => 0) (fun _ => false).
 
 (** one replica against the model: blocks are matched one after the other; where a listed
     defect makes a list order map-dependent, up to [cands] permutations are tried per block.
